@@ -1,8 +1,11 @@
 (* C10 — the solver reads an instance file as the instance the file denotes.
    C10_import: single-blank rendering; C10_import_any_layout: ANY run of blanks/tabs between tokens, leading and
-   trailing blanks on every line, any trailing block of lines, final newline present or not.  Leading zeros on
-   numbers and "\r\n" line ends are covered by the correspondence R_import only. *)
-From MP Require Import Text.Render Text.RenderWs Proofs.ImportProofs Proofs.ImportWsProofs.
+   trailing blanks on every line, any trailing block of lines, final newline present or not;
+   C10_import_leading_zeros: additionally every number written with any number of leading zeros (files whose
+   numbers are non-negative; a zero in front of a minus sign is not a number for Python either, see
+   C10_leading_zeros_need_nonneg).  "\r\n" line ends are covered by the correspondence R_import only. *)
+From MP Require Import Text.Render Text.RenderWs Text.RenderPad Proofs.ImportProofs Proofs.ImportWsProofs
+                       Proofs.ImportPadProofs.
 Local Open Scope list_scope. Open Scope Z_scope.
 
 (* for every abstract file of the documented format (any counts, list lengths, tie groups anywhere, empty
@@ -26,6 +29,31 @@ Theorem C10_import_any_layout : forall na twopl A lys trailer final_nl,
   import_model (render_ws na A lys trailer final_nl) na twopl = Ok (denote na twopl A).
 Proof. exact import_render_ws. Qed.
 Print Assumptions C10_import_any_layout.
+
+(* numbers written with leading zeros ("007:", "(03", "12)"), on top of any blank/tab layout: every token may carry
+   its own number of zeros (pads is unconstrained).  nonneg_ast: the quotas / targets and second-side entries of the
+   abstract file are non-negative, as in every documented file. *)
+Theorem C10_import_leading_zeros : forall na twopl A pads lys trailer final_nl,
+  wf_ast na twopl A = true ->
+  nonneg_ast na A = true ->
+  length lys = length (ast_lines na A) ->
+  (forall i ly toks, nth_error lys i = Some ly -> nth_error (ast_lines na A) i = Some toks ->
+                     layout_ok ly (length toks) = true) ->
+  import_model (render_pad na A pads lys trailer final_nl) na twopl = Ok (denote na twopl A).
+Proof. exact import_render_pad_nonneg. Qed.
+Print Assumptions C10_import_leading_zeros.
+
+(* without the non-negativity hypothesis the statement is false (and rightly so: "0-1" is no number for Python's int()
+   either): a well-formed abstract file with a lower quota of -1, one zero in front of that token *)
+Theorem C10_leading_zeros_need_nonneg :
+  wf_ast 2 false cex_ast = true /\
+  length cex_lys = length (ast_lines 2 cex_ast) /\
+  (forall i ly toks, nth_error cex_lys i = Some ly -> nth_error (ast_lines 2 cex_ast) i = Some toks ->
+                     layout_ok ly (length toks) = true) /\
+  import_model (render_pad 2 cex_ast [[]; []; [0; 1]]%nat cex_lys [] true) 2 false = Crash ValueError /\
+  import_model (render_pad 2 cex_ast [] cex_lys [] true) 2 false = Ok (denote 2 false cex_ast).
+Proof. exact pad_counterexample. Qed.
+Print Assumptions C10_leading_zeros_need_nonneg.
 
 Example C10_example :
   let A := mkAst 2 2 2 [[[1;2]]; [[2];[1]]] [(0,1,1);(0,2,1)] [] [(0,1,2,[[1];[2]]); (0,0,1,[])] in
